@@ -145,6 +145,9 @@ def field_shapes(types=None, tier="quick"):
                        (t, True, None, None, None, wrong), (t, False, None, None, None, wrong), (t, True, None, None, "digits", lit),
                        (t, False, None, None, None, "false" if kind == "bool" else lit)]
         # a length that is an integer but not a string of digits ("-1", "+4"), and one that names nothing
+        # concrete literal lengths against a concrete hardcoded string (0 is falsy: a favourite of `if length and ...`)
+        combos += [("string", True, None, None, "zero", "abc"), ("string", False, None, None, "zero", "abc"), ("encoded_string", True, None, None, "zero", "abc"),
+                   ("string", True, None, None, "two", "abc"), ("string", True, None, None, "three", "abc"), ("string", False, None, None, "three", "abc")]
         combos += [("string", True, None, None, "negint", None), ("encoded_string", True, None, "true", "negint", None),
                    ("string", True, None, None, "noref", None), ("string", True, "true", None, "negint", None)]
         combos = list(dict.fromkeys(c for c in combos if c[5] is not None or True))
@@ -163,6 +166,8 @@ def field_shapes(types=None, tier="quick"):
                 attrs["padded"] = d["padded"]
             if d["length"] == "digits":
                 attrs["length"] = nm.digits("L")
+            elif d["length"] in ("zero", "two", "three"):
+                attrs["length"] = {"zero": "0", "two": "2", "three": "3"}[d["length"]]
             elif d["length"] == "negint":
                 attrs["length"] = nm.negint("L")
             elif d["length"] == "noref":
@@ -175,6 +180,8 @@ def field_shapes(types=None, tier="quick"):
                 pre.append(Elem("length", la))
                 attrs["length"] = n
             txt = None
+            if d["text"] == "abc":
+                txt = "abc"
             if d["text"] == "digits":
                 txt = nm.digits("v")
             elif d["text"] in ("true", "false"):
